@@ -2167,3 +2167,15 @@ M('c06-twin-parts-via-locals', 'C06', 'silent',
                 header_data, message_data)""",
    """            parts = (header_data, message_data)
             send_data = self.client.send_data(parts[0], parts[1])""", 1))
+
+
+# ---------------------------------------------------------------- round 5
+M('c12-listener-in-the-store-pool', 'C12', 'fire:Q9',
+  ('slimta/queue/__init__.py',
+   """        gevent.spawn(self._wait_store)""",
+   """        self._pool_spawn('store', self._wait_store)""", 1))
+M('c12-twin-listener-spawned-by-helper', 'C12', 'silent',
+  ('slimta/queue/__init__.py',
+   """        gevent.spawn(self._wait_store)""",
+   """        listener = gevent.spawn(self._wait_store)
+        del listener""", 1))
